@@ -19,6 +19,7 @@ package fio
 //@   params self b offset
 //@   modifies b[*]
 //@   ensures [count] 0 <= result0 && result0 <= len(b)
+//@   ensures [fs-kept] fs == old(fs)
 //@   assume  [reads-within-the-file-succeed] 0 <= offset && offset + len(b) <= self.size ==> result1 == nil
 //@   assume  [io-error-identity] !engineErr(result1) && result1 != datafile.ErrClosed && result1 != datafile.ErrInvalidCRC && result1 != datafile.ErrIncompleteChunk
 
@@ -26,6 +27,7 @@ package fio
 //@   params self b
 //@   modifies self.size, self.data, self.writes
 //@   ensures [counted]    self.writes == old(self.writes) + 1
+//@   ensures [fs-kept]    fs == old(fs)
 //@   ensures [appended]   result1 == nil ==> self.size == old(self.size) + len(b) && result0 == len(b)
 //@   ensures [all-or-nothing] result1 != nil ==> self.size == old(self.size)
 //@   assume  [fs-max-file-size] self.size <= 35184372088832
@@ -35,6 +37,7 @@ package fio
 //@   params self
 //@   modifies self.durable
 //@   ensures [flushed] result == nil ==> self.durable == self.size
+//@   ensures [fs-kept] fs == old(fs)
 //@   ensures [err-keeps] result != nil ==> self.durable == old(self.durable)
 //@   assume  [io-error-identity] !engineErr(result)
 
@@ -42,6 +45,7 @@ package fio
 //@   params self
 //@   modifies self.durable, self.closed
 //@   ensures [flush-then-close] result == nil ==> self.durable == self.size && self.closed
+//@   ensures [fs-kept] fs == old(fs)
 //@   assume  [io-error-identity] !engineErr(result)
 
 //@ func iface (fio.ReadWriter).Size
